@@ -84,6 +84,135 @@ def selective(pattern, folders, opts, recursive, as_set, unroll=1, extras=False)
     return r
 
 
+def selective_to_path(pattern, folders, opts, recursive):
+    """extract(path, targets=T) on the filesystem model: exactly the selected members and the parent directories they need"""
+    from vf.harness import fakefs as F
+    from vf.pysym.models import Native
+
+    n = len(pattern)
+    names = c06.tree_names(pattern)
+    r = ObResult(bounds="layout %s with tree names %s; extract(<directory>, targets=T, recursive=%s) for every subset T; filesystem "
+                        "model; one decoder call per member; sizes/CRCs symbolic" % (RC.shape_name(pattern, folders, opts), names, recursive))
+    eng = RC.mk_engine(unroll=1)
+    sym = RC.symbols(eng, pattern)
+    sel = [z3.Bool("sel%d" % i) for i in range(n)]
+
+    class TS(Native):
+        def __init__(self, v):
+            self.v = v
+
+        def totimestamp(self, e):
+            return ("ts", self.v)
+
+    def harness(e):
+        fs = F.FS()
+        for loc in [("/", "base"), ("/", "base", "jail")]:
+            fs.nodes[loc] = ("dir",)
+        F.install(e, fs, "/base/jail")
+        entries, layout = RC.build(e, pattern, folders, opts, sym, names=names)
+        try:
+            z, fp, w = X.setup_read(e, entries, layout, consume="all-at-once")
+        except ModelRaise as ex:
+            return dict(exc="open:" + ex.name)
+        targets, chosen = [], set()
+        for i, en in enumerate(entries):
+            if e.branch(sel[i]):
+                targets.append(en["name"])
+                chosen.add(i)
+        e.class_models[("py7zr.helpers", "ArchiveTimestamp")] = lambda e_, x: TS(e_.models._int(e_, x))
+        try:
+            e.method(z, "extract", F.FakePath(fs, "/base/jail", "/base/jail"), targets, recursive)
+        except ModelRaise as ex:
+            return dict(exc=ex.name + str(ex.eargs)[:80], targets=targets)
+        finally:
+            e.class_models[("py7zr.helpers", "ArchiveTimestamp")] = lambda e_, x: e_.models._int(e_, x)
+        if recursive:
+            for i in list(chosen):
+                for j, en in enumerate(entries):
+                    if en["name"].startswith(entries[i]["name"] + "/"):
+                        chosen.add(j)
+        return dict(fs=fs, entries=entries, chosen=chosen, targets=targets, world=w)
+
+    def post(o):
+        if "exc" in o:
+            return False
+        fs, entries, chosen, w = o["fs"], o["entries"], o["chosen"], o["world"]
+        jail = ("/", "base", "jail")
+        want = {}
+        for i in sorted(chosen):
+            parts = tuple(entries[i]["name"].split("/"))
+            want[jail + parts] = "dir" if entries[i]["kind"] == "d" else "file"
+            for k in range(1, len(parts)):
+                want.setdefault(jail + parts[:k], "dir")
+        got = {loc: v[0] for loc, v in fs.nodes.items() if len(loc) > 3 and loc[:3] == jail}
+        c = [got == want]
+        # contents: a selected data member holds exactly its byte range
+        for i in sorted(chosen):
+            if entries[i]["kind"] == "f":
+                node = fs.nodes.get(jail + tuple(entries[i]["name"].split("/")))
+                if node is None or node[0] != "file" or node[1] is None:
+                    return c + [False]
+                fi_, off, size = w.member_range[i]
+                total = 0
+                for ch in node[1].chunks:
+                    c.append(ch.folder == fi_)
+                    total = eng.binop(ast.Add(), total, ch.n)
+                c.append(eng.compare(ast.Eq(), total, size))
+        c.append(all(loc[:3] == jail for (op, loc) in fs.effects))
+        return c
+
+    inputs = RC.inputs_of(sym, pattern, folders)
+    inputs.update({"sel%d" % i: s for i, s in enumerate(sel)})
+    decide(eng, harness, post, inputs, r, describe=lambda o: o.get("exc") or "T=%s -> %d nodes" % (o["targets"], len(o["fs"].nodes) - 3))
+
+    def rp(w_):
+        return dict(module="vf.props.c09", func="replay_to_path", kwargs=dict(
+            pattern=pattern, folders=folders, opts=opts, targets=[names[i] for i in range(n) if w_.get("sel%d" % i)], recursive=recursive,
+            witness={k: int(v) for k, v in w_.items() if isinstance(v, int) and not isinstance(v, bool)}))
+
+    _cex(r, "selective_to_path", rp, signature=lambda w_: c06._sig("selective_to_path", pattern, folders, opts))
+    return r
+
+
+def replay_to_path(pattern, folders, opts, targets, recursive, witness):
+    import io
+    import os
+    import shutil
+    import tempfile
+
+    import py7zr
+
+    names = c06.tree_names(pattern)
+    img, entries, datas = c06.concrete_case(pattern, folders, opts, witness, names=names)
+    d = tempfile.mkdtemp(prefix="vf_c09p_")
+    try:
+        try:
+            py7zr.SevenZipFile(io.BytesIO(img)).extract(path=d, targets=list(targets), recursive=recursive)
+        except Exception as e:  # noqa
+            return True, "extract(%s) to a directory raised %r" % (targets, e)
+        want = {}
+        di = 0
+        for en in entries:
+            sel_ = en["name"] in targets or (recursive and any(en["name"].startswith(t + "/") for t in targets))
+            if sel_:
+                parts = en["name"].split("/")
+                want[en["name"]] = "dir" if en["kind"] == "d" else datas[di] if en["kind"] == "f" else b""
+                for k in range(1, len(parts)):
+                    want.setdefault("/".join(parts[:k]), "dir")
+            if en["kind"] in "fl":
+                di += 1
+        got = {}
+        for root, dirs, files in os.walk(d):
+            for x in dirs:
+                got[os.path.relpath(os.path.join(root, x), d)] = "dir"
+            for x in files:
+                got[os.path.relpath(os.path.join(root, x), d)] = open(os.path.join(root, x), "rb").read()
+        return got != want, "extract(%s, recursive=%s) into an empty directory created %s, expected %s" % (
+            targets, recursive, sorted(got), sorted(want))
+    finally:
+        shutil.rmtree(d, ignore_errors=True)
+
+
 def replay(pattern, folders, opts, targets, recursive, as_set, witness):
     """real library on the concrete counterpart: extract(T) must equal the restriction of extractall"""
     import io
@@ -138,4 +267,9 @@ def units(tier):
             us.append(Unit("selective[%s,recursive=%s,%s]" % (RC.shape_name(p, f, o), rec, "set" if as_set else "list"), M,
                            "selective", dict(pattern=p, folders=f, opts=o, recursive=rec, as_set=as_set, extras=rec,
                                              unroll=1 if tier == "quick" else 2), 3000))
+    # to a directory (filesystem model): nothing but the selected members and the parent directories they need
+    for (p, f, o) in [("fdf", [2], {}), ("fdff", [2, 1], {})] + ([("dff", [1, 1], {}), ("dfef", [2], {})] if tier == "thorough" else []):
+        for rec in (False, True):
+            us.append(Unit("to_path[%s,recursive=%s]" % (RC.shape_name(p, f, o), rec), M, "selective_to_path",
+                           dict(pattern=p, folders=f, opts=o, recursive=rec), 3000))
     return us
